@@ -41,6 +41,13 @@ def arms_of_call_arg(ctx, key, callee, idx, what):
     return (f, v, cs[0], r)
 
 
+def map_each(P, g, v, val, src, fn_of_item):
+    """val is a map with one entry per entry of a source map matched by src, under the same key, whose value satisfies
+    fn_of_item (a predicate over a term in ITEM.1): `.iter().map(|(k, v)| (*k, f(v))).collect()` or a loop of inserts"""
+    m = mapping_of(P, g, v, val)
+    return bool(m) and src(m["source"]) and m["key"] == ("field", ITEM, None, "0") and fn_of_item(m["val"])
+
+
 def run(ctx):
     ctx.decided = ("parity plumbing: the signer negates both nonces iff the group commitment has odd y, the share check "
                    "negates the commitment share under the same predicate, and with these the signer's formula satisfies the "
@@ -186,14 +193,9 @@ def run(ctx):
                         elif how == "copy":
                             ok1 = val is not None and src(val)
                         else:
-                            ok1 = val is not None and is_call(val, name="collect") and is_call(val[2][0], name="map") and \
-                                mentions(val[2][0][2][0], lambda s: s == ("field", ("arg", 1), ty.split("<")[0], comp))
-                            if ok1:
-                                cl = val[2][0][2][1]
-                                cf = P.fns.get(cl[1]) if cl[0] == "closure" else None
-                                ct = TermCx(P, cf).local(0) if cf else None
-                                ok1 = ct is not None and ct[0] == "agg" and ct[4][0][1] == ("field", ("arg", 2), None, "0") and \
-                                    neg_of(lambda x: x == ("field", ("arg", 2), None, "1"))(ct[4][1][1])
+                            ok1 = val is not None and map_each(
+                                P, g, FnView.get(P, g), val, lambda s, comp=comp: mentions(s, lambda u: u == ("field", ("arg", 1), ty.split("<")[0], comp)),
+                                neg_of(lambda x: x == ("field", ITEM, None, "1")))
                         if not ok1:
                             good = False
                             det += " %s:%s" % (comp, fmt(val)[:80] if val else "?")
@@ -230,14 +232,12 @@ def run(ctx):
                     pr = tw if how == "t" else tG
                     ok1 = is_call(u, name="add") and ((src(strip_newtype_fields(u[2][0])) and pr(u[2][1])) or (src(strip_newtype_fields(u[2][1])) and pr(u[2][0])))
                 else:
-                    ok1 = is_call(val, name="collect") and is_call(val[2][0], name="map") and mentions(val[2][0][2][0], src)
-                    if ok1:
-                        cl = val[2][0][2][1]
-                        cf = P.fns.get(cl[1]) if cl[0] == "closure" else None
-                        ct = TermCx(P, cf).local(0) if cf else None
-                        cu = unwrap_newtypes(ct[4][1][1]) if ct and ct[0] == "agg" else ("x",)
-                        ok1 = ct is not None and ct[4][0][1] == ("field", ("arg", 2), None, "0") and is_call(cu, name="add") and \
-                            any(strip_newtype_fields(x) == ("field", ("arg", 2), None, "1") for x in cu[2]) and len(cl[2]) == 1 and tG(cl[2][0])
+                    def shifted(x):
+                        cu = unwrap_newtypes(x)
+                        return is_call(cu, name="add") and len(cu[2]) == 2 and \
+                            ((strip_newtype_fields(cu[2][0]) == ("field", ITEM, None, "1") and tG(cu[2][1])) or
+                             (strip_newtype_fields(cu[2][1]) == ("field", ITEM, None, "1") and tG(cu[2][0])))
+                    ok1 = map_each(P, g, FnView.get(P, g), val, lambda s: mentions(s, src), shifted)
                 if not ok1:
                     good = False
                     det += " %s" % comp
@@ -291,14 +291,21 @@ def run(ctx):
     g = ctx.anchor(TRC + "tweak")
     if g:
         v = FnView.get(P, g)
-        t = v.cx.local(0)
-        alts = t[2] if t[0] == "phi" else (t,)
-        seqs = []
-        for a in alts:
-            th = [s for s in subterms(a) if s[0] == "mut" and is_call(s[1], name="tagged_hash")]
-            if len(th) == 1 and th[0][1][2][0] == ("const", "&str", '"TapTweak"'):
-                seqs.append([o[2][0] for o in th[0][2] if o[1] == "update"])
+        # path classes by the presence of a merkle root: the updates applied to the TapTweak hasher on each
+        some_e = {e for (e, fa) in v.facts if fa[0] == "succ" and fa[1] == ("arg", 2) and fa[2]}
+        none_e = {e for (e, fa) in v.facts if fa[0] == "succ" and fa[1] == ("arg", 2) and not fa[2]}
         xP = lambda x: is_call(x, name="x") and is_call(x[2][0], name="to_affine") and x[2][0][2][0] == ("arg", 1)
-        good = len(seqs) == 2 and sorted(len(s) for s in seqs) == [1, 2] and all(xP(s[0]) for s in seqs) and \
-            all(len(s) == 1 or s[1] == ("some", ("arg", 2)) for s in seqs)
+        tap = lambda h: mentions(h, lambda s: is_call(s, name="tagged_hash") and s[2][0] == ("const", "&str", '"TapTweak"'))
+        with_root = calls_on_paths(g, v, none_e, "update")
+        without = calls_on_paths(g, v, some_e, "update")
+        good = bool(some_e) and bool(none_e) and with_root is not None and without is not None
+        if good:
+            good = [a[1] for (_, a) in without] == [a[1] for (_, a) in without if xP(a[1])] and len(without) == 1 and \
+                len(with_root) == 2 and xP(with_root[0][1][1]) and with_root[1][1][1] == ("some", ("arg", 2)) and \
+                all(tap(a[0]) for (_, a) in without + with_root)
+            t = v.cx.local(0)
+            alts = t[2] if t[0] == "phi" else (t,)
+            fin = [v.call_args(bb) for (bb, tt, ci) in g.calls() if ci and ci.get("name") == "hasher_to_scalar"]
+            good = good and all(tap(a) for a in alts) and bool(fin) and all(tap(a[0]) for a in fin) and \
+                len([1 for (b, k, _) in ret_writes(g)]) == len(fin)
         ctx.check(good, "SEQ", g.key, "tagged(x(P)[||root])", "BIP-341: t = tagged_hash(\"TapTweak\", bytes(P) [|| merkle_root])", g.loc)
